@@ -293,6 +293,8 @@ func (fr *frame) exec(in ssa.Instruction, st *State, reach string) {
 			return
 		}
 		mt := i.X.Type().Underlying().(*types.Map)
+		fr.guardCheck(i.X, false, reach, i.Pos())
+		fr.inheritGuard(i, i.X)
 		dn, vn, ks, vs := fc.mapArrs(mt, e.regionOf(i.X))
 		dom := fc.heapGet(st, dn, arr(SInt, arr(ks, SBool)))
 		val := fc.heapGet(st, vn, arr(SInt, arr(ks, vs)))
@@ -320,6 +322,7 @@ func (fr *frame) exec(in ssa.Instruction, st *State, reach string) {
 		k := fr.term(i.Key)
 		v := fr.term(i.Value)
 		mt := i.Map.Type().Underlying().(*types.Map)
+		fr.guardCheck(i.Map, true, reach, i.Pos())
 		dn, vn, ks, vs := fc.mapArrs(mt, e.regionOf(i.Map))
 		fr.safety("nilmap", not(eq(m.S, "0")), reach, i.Pos(), "assignment to entry in nil map")
 		fc.factIf(reach, not(eq(m.S, "0"))) // checked just above
@@ -435,6 +438,9 @@ func (fr *frame) exec(in ssa.Instruction, st *State, reach string) {
 			return
 		}
 		fr.vals[i] = t.Elems[i.Index]
+		if lk, isLk := i.Tuple.(*ssa.Lookup); isLk && i.Index == 0 {
+			fr.inheritGuard(i, lk)
+		}
 	case *ssa.TypeAssert:
 		x := fr.term(i.X)
 		if _, isIface := i.AssertedType.Underlying().(*types.Interface); isIface {
@@ -483,6 +489,7 @@ func (fr *frame) exec(in ssa.Instruction, st *State, reach string) {
 	case *ssa.Range:
 		x := fr.term(i.X)
 		if mt, ok := i.X.Type().Underlying().(*types.Map); ok {
+			fr.guardCheck(i.X, false, reach, i.Pos())
 			it := &MapIter{Map: x, MapT: mt, Vis: "VIS$" + i.Name(), Region: e.regionOf(i.X)}
 			ks := e.sortOf(mt.Key())
 			st.heap[it.Vis] = Term{fmt.Sprintf("((as const %s) false)", arr(ks, SBool)), arr(ks, SBool)}
@@ -706,6 +713,7 @@ func (fr *frame) execUnOp(i *ssa.UnOp, st *State, reach string) {
 				v = fc.define(i.Name(), v)
 				fc.fact(fmt.Sprintf("(and (<= 0 (soff %s)) (<= 0 (slen %s)))", v.S, v.S))
 			}
+			fr.noteGuarded(i, pt)
 			fr.vals[i] = v
 		case *PtrArrElem:
 			if pt.Field != "" {
@@ -1368,4 +1376,60 @@ func cellAlloc(v ssa.Value) *ssa.Alloc {
 		}
 	}
 	return nil
+}
+
+// ---- lock-guarded maps (`guard T by mu: f g h`) ------------------------------------------------
+// A map loaded from a guarded field of an object o - or looked up in such a map - is owned by o:
+// every lookup, range and len on it is an obligation "o.mu is held", every update and delete
+// "o.mu is write-held". Ownership is followed through the SSA values of one function (field load,
+// lookup, comma-ok extract); a map that reaches the code another way carries no obligation.
+type guardOwner struct {
+	base  Term
+	g     *LockGuard
+	sT    types.Type
+	field string
+}
+
+func (fr *frame) noteGuarded(v ssa.Value, pt *PtrField) {
+	if pt.StructT == nil || len(fr.fc.e.specs.LockGuards) == 0 {
+		return
+	}
+	g := fr.fc.e.specs.LockGuards[typeKey(pt.StructT)]
+	if g == nil || !g.Fields[pt.Name] {
+		return
+	}
+	if fr.mapOwner == nil {
+		fr.mapOwner = map[ssa.Value]*guardOwner{}
+	}
+	fr.mapOwner[v] = &guardOwner{pt.Base, g, pt.StructT, pt.Name}
+}
+
+func (fr *frame) inheritGuard(v, from ssa.Value) {
+	o := fr.mapOwner[from]
+	if o == nil {
+		return
+	}
+	t := v.Type()
+	if tp, ok := t.(*types.Tuple); ok && tp.Len() > 0 {
+		t = tp.At(0).Type()
+	}
+	if _, isMap := t.Underlying().(*types.Map); isMap {
+		fr.mapOwner[v] = o
+	}
+}
+
+func (fr *frame) guardCheck(m ssa.Value, write bool, reach string, pos token.Pos) {
+	o := fr.mapOwner[m]
+	if o == nil {
+		return
+	}
+	fc := fr.fc
+	name := "LK$" + sanitize(shortType(o.sT)) + "$" + o.g.Mutex
+	a := fc.heapGet(fr.curState, name, arr(SInt, SInt))
+	goal, what := fmt.Sprintf("(>= %s 1)", sel(a.S, o.base.S)), "read"
+	if write {
+		goal, what = eq(sel(a.S, o.base.S), "2"), "write"
+	}
+	ob := fc.oblig("lock", "guard."+o.field+"."+what, goal, reach, pos, o.g.Props)
+	ob.Src = fmt.Sprintf("%s.%s is %s only while %s is held%s (guard %s)", o.g.Type, o.field, map[bool]string{false: "read", true: "written"}[write], o.g.Mutex, map[bool]string{false: "", true: " for writing"}[write], o.g.Src)
 }
